@@ -81,6 +81,16 @@ def replay(case):
                 continue
             r3 = guard.call(getattr(r[1], op2), timeout=4.0)
             evs.append(cfgh.result_event(op2, Y, r3, L=case["L"], chain=op))
+    # an object that is asked about the empty word before anything else, then converted
+    g5, _, _ = cfgh.make(case["prods"], case["vpool"], case["tpool"], declare=case.get("declare", False))
+    guard.call(g5.contains, [])
+    for op in OPS:
+        r = guard.call(getattr(g5, op), timeout=4.0)
+        ev = cfgh.result_event(op, G, r, L=case["L"], aged="contains-epsilon-first")
+        if op == "to_normal_form" and r[0] == "ok":
+            r2 = guard.call(r[1].is_normal_form)
+            ev["isnf"] = bool(r2[1]) if r2[0] == "ok" else False
+        evs.append(ev)
     if cfgh.project(g3) != G:
         evs.append({"op": "new", "G": cfgh.project(g3), "start": start, "prods": tagged, "after": True})
     return evs
